@@ -544,6 +544,21 @@ class C12(Prop):
         nb = len(fe.body)
         cuts = [sched.draw(nb + 1) for _ in range(sched.draw(4))] if nb > 1 else []
         script = fe.script(cuts)
+        # OPTIONAL message keys: "body" defaults to b"", "more_body" to False - a server may leave them out
+        if sched.draw(4) == 0:
+            for m in script:
+                om = set()
+                if m["type"] == "http.request" and not m.get("body"):
+                    om.add("body")
+                if m["type"] == "http.request" and not m.get("more_body"):
+                    om.add("more_body")
+                if om:
+                    m["omit"] = om
+                    ctx.probe("asgi_message_without_optional_keys")
+            if script and script[-1]["type"] == "http.request" and script[-1].get("body") and not script[-1].get("more_body") and sched.draw(2):
+                # ... or send the body and then a bare final event
+                script[-1]["more_body"] = True
+                script.append({"type": "http.request", "body": b"", "more_body": False, "delay": 0.0, "omit": {"body", "more_body"}})
         if len(script) > 1:
             ctx.sch("chunks", tuple(len(m.get("body", b"")) for m in script))
         state = {"entry": target}
